@@ -19,6 +19,9 @@ def check(pid, category, text, note, technique, design_ref, engine):
     }
 exec(open('/verif/manifest_table.py').read())
 props = [json.loads(l)["id"] for l in open('/verif/properties.jsonl')]
+for e in ENGINES:
+    e["serves_properties"] = sorted(c["property_id"] for c in CLAIMED if c.get("engine") == e["name"])
+CLAIMED.sort(key=lambda c: c["property_id"])
 claimed = [c["property_id"] for c in CLAIMED]
 na = [{"property_id": p, "reason": NOT_YET.get(p, "check not built yet in this round of work; design in DESIGN.md section 5")} for p in props if p not in claimed]
 m = {
